@@ -274,6 +274,7 @@ bloom_filter_alloc<A> bloom_filter_alloc<A>::deserialize(std::istream& is, const
   const uint8_t ser_ver = read<uint8_t>(is);
   const uint8_t family = read<uint8_t>(is);
   const uint8_t flags = read<uint8_t>(is);
+  if (!is.good()) throw std::runtime_error("error reading from std::istream");
 
   if (prelongs < 1 || prelongs > 4) {
     throw std::invalid_argument("Possible corruption: Incorrect number of preamble bytes specified in header");
@@ -292,6 +293,7 @@ bloom_filter_alloc<A> bloom_filter_alloc<A>::deserialize(std::istream& is, const
   const uint64_t seed = read<uint64_t>(is);
   const uint32_t num_longs = read<uint32_t>(is); // sized in java longs
   read<uint32_t>(is); // unused
+  if (!is.good()) throw std::runtime_error("error reading from std::istream");
   // same ranges as the constructor enforces
   if (num_hashes == 0) {
     throw std::invalid_argument("Possible corruption: Must have at least 1 hash function");
@@ -306,6 +308,7 @@ bloom_filter_alloc<A> bloom_filter_alloc<A>::deserialize(std::istream& is, const
   }
 
   const uint64_t num_bits_set = read<uint64_t>(is);
+  if (!is.good()) throw std::runtime_error("error reading from std::istream");
   const bool is_dirty = (num_bits_set == DIRTY_BITS_VALUE);
 
   // allocate memory
@@ -316,6 +319,10 @@ bloom_filter_alloc<A> bloom_filter_alloc<A>::deserialize(std::istream& is, const
     throw std::bad_alloc();
   }
   read(is, bit_array, num_bytes);
+  if (!is.good()) {
+    alloc.deallocate(bit_array, num_bytes);
+    throw std::runtime_error("error reading from std::istream");
+  }
 
   // pass to constructor
   return bloom_filter_alloc<A>(seed, num_hashes, is_dirty, true, false, static_cast<uint64_t>(num_longs) << 6, num_bits_set, bit_array, nullptr, allocator);
